@@ -13,7 +13,7 @@ Lemma ix_add_shape ix r ix' :
   zlen (irefs ix') = (if q_placed r then Z.max (zlen (irefs ix)) (q_rid r + 1) else zlen (irefs ix)).
 Proof.
   unfold ix_add, um_of. intros H.
-  destruct (negb (ix_valid_pos (q_start r)) || negb (ix_valid_pos (q_end r))); [discriminate|].
+  destruct (negb (ix_valid_pos (q_start r)) || negb (ix_valid_pos (q_end r - 1))); [discriminate|].
   destruct (q_placed r); simpl in H.
   2:{ inversion H; subst; simpl. split; reflexivity. }
   destruct (q_rid r <? 0) eqn:E0; [discriminate|].
@@ -133,7 +133,7 @@ Lemma ix_add_stats done ix r ix' :
   stats_inv done ix -> ix_add ix r = Ok ix' -> stats_inv (done ++ [r]) ix'.
 Proof.
   intros I H rid Hrid. unfold ix_add in H.
-  destruct (negb (ix_valid_pos (q_start r)) || negb (ix_valid_pos (q_end r))); [discriminate|].
+  destruct (negb (ix_valid_pos (q_start r)) || negb (ix_valid_pos (q_end r - 1))); [discriminate|].
   destruct (q_placed r) eqn:Hp; simpl in H.
   2:{ inversion H; subst; simpl. rewrite true_stats_snoc_other by (left; exact Hp). apply I; exact Hrid. }
   destruct (q_rid r <? 0) eqn:E0; [discriminate|].
